@@ -105,6 +105,32 @@ pub fn run(ctx: &Ctx, rep: &mut Report) {
             }
             rep.count("repetitions_with_thousands_of_dictionary_forms", 1);
         }
+        // every third repetition: hundreds of compound words with declared A/B units, and texts made of them, so that in
+        // modes A and B many different compounds are split for the first time by different threads at the same moment
+        // (whatever is remembered per compound is filled under contention) and split again later by every thread
+        let big_compounds = !miri && idx % 3 == 2;
+        let mut compounds: Vec<String> = vec![];
+        if big_compounds {
+            let alpha: Vec<char> = "さしすせそたちつてとなにぬねのはひふへほまみむめもらりるれろ".chars().collect();
+            let n = 400;
+            for k in 0..n {
+                let base = sys.entries.len();
+                let a: String = [alpha[k % 30], alpha[(k / 30) % 30], 'ゑ'].iter().collect();
+                let b: String = [alpha[(k / 30) % 30], alpha[k % 30], 'ゐ'].iter().collect();
+                for u in [&a, &b] {
+                    let mut e = Entry::simple(u, rng.range(0, nid - 1) as i16, rng.range(0, nid - 1) as i16, 4000, &pool[0]);
+                    e.reading = format!("{}ヨミ", u);
+                    sys.entries.push(e);
+                }
+                let mut e = Entry::simple(&format!("{}{}", a, b), rng.range(0, nid - 1) as i16, rng.range(0, nid - 1) as i16, -3000, &pool[0]);
+                e.mode = "C";
+                e.split_a = vec![crate::model::Ref { dic: 0, row: base, inline: false }, crate::model::Ref { dic: 0, row: base + 1, inline: false }];
+                e.split_b = e.split_a.clone();
+                compounds.push(e.key.clone());
+                sys.entries.push(e);
+            }
+            rep.count("repetitions_with_hundreds_of_compounds", 1);
+        }
         // every plugin type
         let mut p = PluginOpts::random(&mut rng, &matrix, true);
         p.default_input = true;
@@ -165,13 +191,23 @@ pub fn run(ctx: &Ctx, rep: &mut Report) {
                 texts[k] = t;
             }
         }
+        if big_compounds {
+            texts.resize(240, String::new());
+            for k in 1..texts.len() {
+                let mut t = String::new();
+                for _ in 0..3 {
+                    t.push_str(rng.pick(&compounds[..]).as_str());
+                }
+                texts[k] = t;
+            }
+        }
         // text 0 exercises every input-text plugin at once: all threads analyse it first, so whatever is
         // initialised on first use is initialised under contention
         texts[0] = format!("東京(とうきょう)ＡＢスーーーパー㍿京（キョウ）{}", texts[0]);
         // per-thread streams: (text, mode, subset)
         let subsets = [0x3ffu32, 0x3ff, 0x001, 0x00d, 0x02d, 0x3c0];
         let streams: Vec<Vec<Key>> = (0..n_threads)
-            .map(|_| (0..per_thread).map(|k| (if k < 2 { 0 } else { rng.below(texts.len()) }, rng.below(3), *rng.pick(&subsets))).collect())
+            .map(|_| (0..per_thread).map(|k| (if k < 2 { 0 } else { rng.below(texts.len()) }, if big_compounds && k >= 2 { rng.below(2) } else { rng.below(3) }, *rng.pick(&subsets))).collect())
             .collect();
         // a twin load of the same bytes that is never used concurrently: reference for the digest and
         // for the single-threaded baseline (the shared dictionary is not touched before the threads start)
